@@ -21,6 +21,12 @@ pub struct Case {
     pub hi: Bd,
     /// multipleOf scaled by 10^3
     pub mult: Option<i64>,
+    /// a second lower bound written with the *other* keyword (minimum vs exclusiveMinimum)
+    #[serde(default)]
+    pub lo2: Option<i64>,
+    /// a second upper bound written with the other keyword
+    #[serde(default)]
+    pub hi2: Option<i64>,
 }
 
 pub struct C08;
@@ -81,6 +87,20 @@ pub fn schema(c: &Case) -> Option<serde_json::Value> {
         }
         parts.push(format!("\"{}\":{}", if ex { "exclusiveMaximum" } else { "maximum" }, t));
     }
+    if let (Some((_, ex)), Some(v2)) = (c.lo, c.lo2) {
+        let t = bound_text(v2);
+        if !roundtrips(&t) {
+            return None;
+        }
+        parts.push(format!("\"{}\":{}", if ex { "minimum" } else { "exclusiveMinimum" }, t));
+    }
+    if let (Some((_, ex)), Some(v2)) = (c.hi, c.hi2) {
+        let t = bound_text(v2);
+        if !roundtrips(&t) {
+            return None;
+        }
+        parts.push(format!("\"{}\":{}", if ex { "maximum" } else { "exclusiveMaximum" }, t));
+    }
     if let Some(m) = c.mult {
         let t = bound_text(m);
         if !roundtrips(&t) || m <= 0 {
@@ -91,8 +111,46 @@ pub fn schema(c: &Case) -> Option<serde_json::Value> {
     serde_json::from_str(&format!("{{{}}}", parts.join(","))).ok()
 }
 
+/// all lower / upper bounds of the case as (value scaled 10^3, exclusive)
+fn lows(c: &Case) -> Vec<(i64, bool)> {
+    let mut v = vec![];
+    if let Some((l, ex)) = c.lo {
+        v.push((l, ex));
+        if let Some(l2) = c.lo2 {
+            v.push((l2, !ex));
+        }
+    }
+    v
+}
+fn highs(c: &Case) -> Vec<(i64, bool)> {
+    let mut v = vec![];
+    if let Some((h, ex)) = c.hi {
+        v.push((h, ex));
+        if let Some(h2) = c.hi2 {
+            v.push((h2, !ex));
+        }
+    }
+    v
+}
+
 /// reference: is the value (scaled 10^6) admitted
 pub fn admits(c: &Case, v6: i128) -> bool {
+    for (lo, ex) in lows(c) {
+        let l = lo as i128 * S3;
+        if v6 < l || (ex && v6 == l) {
+            return false;
+        }
+    }
+    for (hi, ex) in highs(c) {
+        let h = hi as i128 * S3;
+        if v6 > h || (ex && v6 == h) {
+            return false;
+        }
+    }
+    admits_rest(c, v6)
+}
+
+fn admits_rest(c: &Case, v6: i128) -> bool {
     if let Some((lo, ex)) = c.lo {
         let l = lo as i128 * S3;
         if v6 < l || (ex && v6 == l) {
@@ -127,8 +185,8 @@ pub fn satisfiable(c: &Case) -> bool {
         let g = gcd(step, S6);
         step = step / g * S6;
     }
-    let lo = c.lo.map(|(v, ex)| v as i128 * S3 + if ex { 1 } else { 0 });
-    let hi = c.hi.map(|(v, ex)| v as i128 * S3 - if ex { 1 } else { 0 });
+    let lo = lows(c).iter().map(|(v, ex)| *v as i128 * S3 + if *ex { 1 } else { 0 }).max();
+    let hi = highs(c).iter().map(|(v, ex)| *v as i128 * S3 - if *ex { 1 } else { 0 }).min();
     match (lo, hi) {
         (Some(l), Some(h)) => {
             if l > h {
@@ -195,6 +253,9 @@ pub fn candidates(c: &Case) -> Vec<i128> {
     }
     if let Some(h) = hi6 {
         around(h, &mut s);
+    }
+    for x in [c.lo2, c.hi2].into_iter().flatten() {
+        around(x as i128 * S3, &mut s);
     }
     if let (Some(l), Some(h)) = (lo6, hi6) {
         let span = h - l;
@@ -341,20 +402,20 @@ pub fn grid(tier: Tier) -> Vec<Case> {
     for lo in -w..=w {
         for hi in lo..=w {
             let pat = (lo + 2 * hi).rem_euclid(4);
-            v.push(Case { integer: true, lo: Some((lo * 1000, pat & 1 == 1)), hi: Some((hi * 1000, pat & 2 == 2)), mult: None });
+            v.push(Case { integer: true, lo: Some((lo * 1000, pat & 1 == 1)), hi: Some((hi * 1000, pat & 2 == 2)), mult: None, lo2: None, hi2: None });
         }
     }
     // (2) half-open and unbounded, integer and number
     for b in -w..=w {
         for ex in [false, true] {
-            v.push(Case { integer: true, lo: Some((b * 1000, ex)), hi: None, mult: None });
-            v.push(Case { integer: true, lo: None, hi: Some((b * 1000, ex)), mult: None });
-            v.push(Case { integer: false, lo: Some((b * 1000, ex)), hi: None, mult: None });
-            v.push(Case { integer: false, lo: None, hi: Some((b * 1000, ex)), mult: None });
+            v.push(Case { integer: true, lo: Some((b * 1000, ex)), hi: None, mult: None, lo2: None, hi2: None });
+            v.push(Case { integer: true, lo: None, hi: Some((b * 1000, ex)), mult: None, lo2: None, hi2: None });
+            v.push(Case { integer: false, lo: Some((b * 1000, ex)), hi: None, mult: None, lo2: None, hi2: None });
+            v.push(Case { integer: false, lo: None, hi: Some((b * 1000, ex)), mult: None, lo2: None, hi2: None });
         }
     }
-    v.push(Case { integer: true, lo: None, hi: None, mult: None });
-    v.push(Case { integer: false, lo: None, hi: None, mult: None });
+    v.push(Case { integer: true, lo: None, hi: None, mult: None, lo2: None, hi2: None });
+    v.push(Case { integer: false, lo: None, hi: None, mult: None, lo2: None, hi2: None });
     // (3) structured decimal bounds (scaled 10^3)
     let mut dec: Vec<i64> = vec![
         0, 1, 10, 100, 250, 500, 990, 999, 1000, 1001, 1010, 1100, 1250, 1500, 1990, 1999, 2000, 9000, 9900, 9990, 9999, 10000, 10001, 10010, 12340, 12345,
@@ -367,16 +428,16 @@ pub fn grid(tier: Tier) -> Vec<Case> {
     for (i, &lo) in dec.iter().enumerate() {
         for &hi in &dec[i..] {
             let pat = (lo / 10 + hi).rem_euclid(4);
-            v.push(Case { integer: false, lo: Some((lo, pat & 1 == 1)), hi: Some((hi, pat & 2 == 2)), mult: None });
+            v.push(Case { integer: false, lo: Some((lo, pat & 1 == 1)), hi: Some((hi, pat & 2 == 2)), mult: None, lo2: None, hi2: None });
             if (lo + hi) % 3 == 0 {
                 // integer schema with fractional bounds
-                v.push(Case { integer: true, lo: Some((lo, pat & 2 == 2)), hi: Some((hi, pat & 1 == 1)), mult: None });
+                v.push(Case { integer: true, lo: Some((lo, pat & 2 == 2)), hi: Some((hi, pat & 1 == 1)), mult: None, lo2: None, hi2: None });
             }
         }
         for ex in [false, true] {
-            v.push(Case { integer: false, lo: Some((lo, ex)), hi: None, mult: None });
-            v.push(Case { integer: false, lo: None, hi: Some((lo, ex)), mult: None });
-            v.push(Case { integer: true, lo: Some((lo, ex)), hi: None, mult: None });
+            v.push(Case { integer: false, lo: Some((lo, ex)), hi: None, mult: None, lo2: None, hi2: None });
+            v.push(Case { integer: false, lo: None, hi: Some((lo, ex)), mult: None, lo2: None, hi2: None });
+            v.push(Case { integer: true, lo: Some((lo, ex)), hi: None, mult: None, lo2: None, hi2: None });
         }
     }
     // (4) large magnitudes near powers of ten (integers only, below 2^53)
@@ -388,13 +449,28 @@ pub fn grid(tier: Tier) -> Vec<Case> {
                 continue;
             }
             for ex in [false, true] {
-                v.push(Case { integer: true, lo: Some((b * 1000, ex)), hi: None, mult: None });
-                v.push(Case { integer: true, lo: None, hi: Some((b * 1000, ex)), mult: None });
-                v.push(Case { integer: true, lo: Some((-b * 1000, ex)), hi: Some((b * 1000, !ex)), mult: None });
-                v.push(Case { integer: false, lo: Some(((b - 7) * 1000, ex)), hi: Some((b * 1000, ex)), mult: None });
-                v.push(Case { integer: true, lo: Some(((p / 10 - 1) * 1000, ex)), hi: Some((b * 1000, ex)), mult: None });
+                v.push(Case { integer: true, lo: Some((b * 1000, ex)), hi: None, mult: None, lo2: None, hi2: None });
+                v.push(Case { integer: true, lo: None, hi: Some((b * 1000, ex)), mult: None, lo2: None, hi2: None });
+                v.push(Case { integer: true, lo: Some((-b * 1000, ex)), hi: Some((b * 1000, !ex)), mult: None, lo2: None, hi2: None });
+                v.push(Case { integer: false, lo: Some(((b - 7) * 1000, ex)), hi: Some((b * 1000, ex)), mult: None, lo2: None, hi2: None });
+                v.push(Case { integer: true, lo: Some(((p / 10 - 1) * 1000, ex)), hi: Some((b * 1000, ex)), mult: None, lo2: None, hi2: None });
             }
         }
+    }
+    // (6) both keywords on one side (minimum + exclusiveMinimum, maximum + exclusiveMaximum): equal, and off by one either way
+    let wb: i64 = tier.pick(30, 120);
+    for b in -wb..=wb {
+        for d in [-1000i64, -250, 0, 250, 1000] {
+            for ex in [false, true] {
+                for integer in [false, true] {
+                    v.push(Case { integer, lo: Some(((b - 7) * 1000, false)), hi: Some((b * 1000, ex)), mult: None, lo2: None, hi2: Some(b * 1000 + d) });
+                    v.push(Case { integer, lo: Some((b * 1000, ex)), hi: Some(((b + 7) * 1000, false)), mult: None, lo2: Some(b * 1000 + d), hi2: None });
+                    v.push(Case { integer, lo: Some((b * 1000, ex)), hi: Some((b * 1000, !ex)), mult: None, lo2: Some(b * 1000), hi2: Some(b * 1000 + d.max(0)) });
+                }
+            }
+        }
+        v.push(Case { integer: false, lo: None, hi: Some((b * 1000 + 500, true)), mult: None, lo2: None, hi2: Some(b * 1000 + 500) });
+        v.push(Case { integer: false, lo: Some((b * 1000 + 500, false)), hi: None, mult: Some(500), lo2: Some(b * 1000 + 500), hi2: None });
     }
     // (5) multipleOf crossed with windows
     let mults: [i64; 13] = [1000, 2000, 3000, 5000, 7000, 10000, 25000, 100000, 500, 100, 250, 10, 1500];
@@ -404,16 +480,16 @@ pub fn grid(tier: Tier) -> Vec<Case> {
             for span in [0i64, 1, 2, 3, 5, 8, 13, 30, 100] {
                 let hi = lo + span;
                 let pat = (lo + span).rem_euclid(4);
-                v.push(Case { integer: m % 1000 == 0 && pat != 3, lo: Some((lo * 1000, pat & 1 == 1)), hi: Some((hi * 1000, pat & 2 == 2)), mult: Some(m) });
+                v.push(Case { integer: m % 1000 == 0 && pat != 3, lo: Some((lo * 1000, pat & 1 == 1)), hi: Some((hi * 1000, pat & 2 == 2)), mult: Some(m), lo2: None, hi2: None });
                 if m % 1000 != 0 {
-                    v.push(Case { integer: false, lo: Some((lo * 1000 + 250, pat & 1 == 1)), hi: Some((hi * 1000 + 750, pat & 2 == 2)), mult: Some(m) });
+                    v.push(Case { integer: false, lo: Some((lo * 1000 + 250, pat & 1 == 1)), hi: Some((hi * 1000 + 750, pat & 2 == 2)), mult: Some(m), lo2: None, hi2: None });
                 }
             }
         }
-        v.push(Case { integer: false, lo: None, hi: None, mult: Some(m) });
-        v.push(Case { integer: true, lo: None, hi: None, mult: Some(m) });
-        v.push(Case { integer: false, lo: Some((-3500, false)), hi: None, mult: Some(m) });
-        v.push(Case { integer: false, lo: None, hi: Some((7250, true)), mult: Some(m) });
+        v.push(Case { integer: false, lo: None, hi: None, mult: Some(m), lo2: None, hi2: None });
+        v.push(Case { integer: true, lo: None, hi: None, mult: Some(m), lo2: None, hi2: None });
+        v.push(Case { integer: false, lo: Some((-3500, false)), hi: None, mult: Some(m), lo2: None, hi2: None });
+        v.push(Case { integer: false, lo: None, hi: Some((7250, true)), mult: Some(m), lo2: None, hi2: None });
     }
     v
 }
@@ -449,7 +525,7 @@ impl Prop for C08 {
                 // quantise bounds to q thousandths
                 let lo = lo.map(|(v, e)| (v / q * q, e));
                 let hi = if has_hi { Some(((lo.map(|l| l.0).unwrap_or(-1000) + span) / q * q, exh)) } else { None };
-                Case { integer, lo, hi, mult }
+                Case { integer, lo, hi, mult, lo2: None, hi2: None }
             })
             .boxed()
     }
